@@ -691,6 +691,26 @@ func genEditCase(rng *rand.Rand, n int, seed int64) *CaseDesc {
 			c.Provs[rng.Intn(L)].Name = nm
 		}
 	}
+	// a target name that occurs twice with nothing but providers of an unnamed sub-sequence in between (the list is
+	// then built with its first providers in Sequence("", ...): shape "unnamed:<k>")
+	if L >= 4 && chance(rng, 0.08) {
+		nm := names[rng.Intn(2)]
+		for _, q := range c.Provs[:3] {
+			q.Replace, q.Before, q.After = "", "", ""
+		}
+		c.Provs[0].Name, c.Provs[1].Name, c.Provs[2].Name = nm, "", nm
+		q := c.Provs[3]
+		q.Name, q.Replace, q.Before, q.After = "", "", "", ""
+		switch rng.Intn(3) {
+		case 0:
+			q.Replace = nm
+		case 1:
+			q.Before = nm
+		default:
+			q.After = nm
+		}
+		c.Shape = "unnamed:3"
+	}
 	c.Ops = []Op{{Kind: "invoke"}}
 	return c
 }
